@@ -647,4 +647,10 @@ def monitor(rp, script, out, tasks, crash, props):
                     # ("fits the idle pilot" is judged from node 0 on: with node layouts that differ from node to node a
                     #  continuous walk that starts elsewhere may find room where this one does not - only uniform pilots)
                     unfit_pending = set(cand)
+    # directed scripts may name a task that has to be started by the end of the script (`must_start`: [uid, why])
+    if script.get('must_start') and not has_app:
+        u, why = script['must_start']
+        if final.get(u) != 'AGENT_EXECUTING_PENDING':
+            viol.append(('C04', 'waiting-task-not-started-although-enough-continuous-resources-were-released',
+                         'task %d %s: %s' % (u, 'was ' + final[u] if u in final else 'still waits at the end', why)))
     return [v for v in viol if v[0] in props]
